@@ -78,6 +78,11 @@ def prefixRoute (code : Str) : Option Str → Option Str
   | none => some code
   | some r => some (code ++ '/' :: r)
 
+/-- `TimestampingStreamResult.status`: a missing timestamp becomes the current time -/
+def fillNow : Option Ts → Option Ts
+  | none => some .now
+  | some s => some s
+
 /-- `StreamTagger.status`: `set(test_tags or ()) | add - discard` -/
 def tagged (h : Heap) (e : EventOf Ref) (add discard : List Nat) : List Nat :=
   norm ((((deref h e.tags).getD []) ++ add).filter fun x => !discard.contains x)
@@ -118,7 +123,7 @@ def deliver (n : Nat) : Dec → Heap → Msg → Heap × List (List Got)
       | x :: xs => deliverL n ts { h with fresh := h.fresh ++ [x :: xs] } (.status { e with tags := some (.fresh h.fresh.length) })
   | .tagger _ _ ts, h, c => deliverL n ts h c
   | .stamp t, h, .status e =>
-      deliver n t h (.status { e with timestamp := match e.timestamp with | none => some .now | some s => some s })
+      deliver n t h (.status { e with timestamp := fillNow e.timestamp })
   | .stamp t, h, c => deliver n t h c
   | .toQueue code t, h, .status e => deliver n t h (.status { e with route := prefixRoute code e.route })
   | .toQueue _ t, h, c => deliver n t h c
